@@ -29,6 +29,7 @@ package rueidiscompat
 import (
 	"context"
 	"encoding"
+	"errors"
 	"fmt"
 	"reflect"
 	"runtime"
@@ -1233,6 +1234,10 @@ func (c *Compat) BitCount(ctx context.Context, key string, bitCount *BitCount) *
 		resp = c.client.Do(ctx, c.client.B().Bitcount().Key(key).Start(bitCount.Start).End(bitCount.End).Byte().Build())
 	case BitCountIndexBit:
 		resp = c.client.Do(ctx, c.client.B().Bitcount().Key(key).Start(bitCount.Start).End(bitCount.End).Bit().Build())
+	default:
+		cmd := &IntCmd{}
+		cmd.SetErr(errors.New("redis: invalid bitcount index"))
+		return cmd
 	}
 	return newIntCmd(resp)
 }
